@@ -110,7 +110,7 @@ def register(R):
     )
     for m, lit in (('set_status_to_queued', 'queued'), ('set_status_to_running', 'running')):
         R.contract(
-            f'{TC}.{m}', props=['C17'], self_type=SHARED, old_at='acquire', params={},
+            f'{TC}.{m}', props=['C17', 'C07'], self_type=SHARED, old_at='acquire', params={},
             inline_callees=[f'{TC}._transition_to_non_done_state'],
             ensures=lambda c, lit=lit: {
                 'status_is_' + lit: S(c.newf('_status')) == z3.StringVal(lit),
